@@ -401,11 +401,19 @@ class Gen:
     def __init__(self, rng, names, cwd):
         self.rng, self.names, self.cwd = rng, names, cwd     # cwd: list of names
 
-    def location(self, tree):
-        """-> list of names below the root: an existing file / dir, a new name, or a broken path"""
+    def location(self, tree, want=None):
+        """-> list of names below the root: an existing file / dir, a new name, or a broken path.
+        `want` ('file' / 'dir' / 'new') biases the choice towards what the predicate expects."""
         rng = self.rng
         dirs = [[]] + [p.split("/") for p, v in tree.items() if v == "D"]
-        files = [p.split("/") for p, v in tree.items() if isinstance(v, bytes)]
+        files = [p.split("/") for p, v in tree.items() if isinstance(v, bytes) and not p.endswith(KEEP)]   # never the sentinels
+        k = rng.random()
+        if want == "file" and files and k < 0.65:
+            return rng.choice(files)
+        if want == "dir" and k < 0.65:
+            return rng.choice(dirs[1:] or dirs)
+        if want == "new" and k < 0.60:
+            return rng.choice(dirs) + [rng.choice(self.names)]
         k = rng.random()
         if k < 0.30 and files:
             return rng.choice(files)
@@ -440,8 +448,8 @@ class Gen:
             r = rng.random()
             if r < 0.06:
                 out.append(".")
-            elif r < 0.10:
-                out.append("")
+            elif r < 0.10 and (j > 0 or lead):
+                out.append("")       # a doubled separator (never a leading one on a relative path)
             elif r < 0.16 and c not in (".", ".."):
                 # detour through a name and back
                 out.extend([rng.choice(self.names), ".."])
@@ -495,35 +503,30 @@ class Gen:
     def step(self, tree, root):
         rng = self.rng
         r = rng.random()
-        loc = self.location(tree)
+        ops = [(0.08, "fe", "file"), (0.16, "de", "dir"), (0.23, "fs", "file"), (0.31, "df", "dir"), (0.41, "md", "new"),
+               (0.51, "mp", "new"), (0.58, "rf", "file"), (0.66, "rd", "dir"), (0.75, "rn", "file"), (0.84, "cp", "file"),
+               (0.92, "pc", None), (1.01, "ps", None)]
+        op, want = next((o, w) for lim, o, w in ops if r < lim)
+        loc = self.location(tree, want)
         p = self.path_text(loc, tree)
         a = self.chars_arg(p)
-        if r < 0.08:
-            return {"op": "fe", "a": a}
-        if r < 0.16:
-            return {"op": "de", "a": a}
-        if r < 0.23:
-            return {"op": "fs", "a": a, "s": rng.choice(["v", "v", "v", "b", "i0", "i3", "i%d" % rng.randrange(40)])}
-        if r < 0.31:
-            return {"op": "df", "a": a, "l": rng.choice(["v", "v", "v", "v", "n", "p", "b"])}
-        if r < 0.41:
-            return {"op": "md", "a": a}
-        if r < 0.51:
-            return {"op": "mp", "a": a}
-        if r < 0.58:
-            return {"op": "rf", "a": a}
-        if r < 0.66:
-            return {"op": "rd", "a": a}
-        if r < 0.84:
-            op = "rn" if r < 0.75 else "cp"
+        if op in ("fe", "de", "md", "mp", "rf", "rd"):
+            return {"op": op, "a": a}
+        if op == "fs":
+            sz = tree.get("/".join(loc))
+            right = "i%d" % len(sz) if isinstance(sz, bytes) else "i1"
+            return {"op": "fs", "a": a, "s": rng.choice(["v", "v", "v", "v", "v", "b", "i0", right, "i%d" % rng.randrange(40)])}
+        if op == "df":
+            return {"op": "df", "a": a, "l": rng.choice(["v", "v", "v", "v", "v", "n", "p", "b"])}
+        if op in ("rn", "cp"):
             k = rng.random()
-            if k < 0.03:
+            if k < 0.02:
                 loc2 = loc           # the same object through another text
             else:
-                loc2 = self.location(tree)
+                loc2 = self.location(tree, rng.choice(["new", "new", "file", None]))
             b = self.chars_arg(self.path_text(loc2, tree))
             return {"op": op, "a": a, "b": b}
-        if r < 0.92:
+        if op == "pc":
             l = rng.choice(["v", "v", "v", "n", "p", "b", "s", "s"])
             st = {"op": "pc", "a": a, "l": l}
             if l == "s":
@@ -965,7 +968,8 @@ def run_all(cases, run_dir, gen_steps, jobs):
                 try:
                     r = run_case(h, c, run_dir, gen_steps(c))
                 except Exception as e:       # never let a worker die silently
-                    r = {"setup": "exception:%r" % (e,), "answers": [], "trees": [], "oracles": [], "queries": [], "steps": []}
+                    import traceback
+                    r = {"setup": "exception:%r %s" % (e, traceback.format_exc()[-600:]), "answers": [], "trees": [], "oracles": [], "queries": [], "steps": []}
                 with lock:
                     recs[c["id"]] = r
         finally:
@@ -1005,11 +1009,11 @@ def run(ctx):
                 c["id"] = "k%d" % k
                 c["init"] = [tuple(x) for x in c["init"]]
                 corpus.append(c)
-            n = 260 if tier == "quick" else 5000
+            n = 260 if tier == "quick" else 2500
             cases = corpus + make_cases(ctx, n)
         step_rng = random.Random(ctx["rng"].getrandbits(32))
         lens = {c["id"]: step_rng.randint(6, 15) for c in cases}
-        jobs = 6 if len(cases) >= 24 else 1
+        jobs = min(6, int(os.environ.get("SV_JOBS") or 6)) if len(cases) >= 24 else 1
         recs = run_all(cases, run_dir, lambda c: lens[c["id"]], jobs)
         # a case that hit the watchdog / lost its harness is run once more, alone
         again = [c for c in cases if recs[c["id"]]["setup"] != "ok" or any(a.startswith(("timeout", "abort")) for a in recs[c["id"]]["answers"])]
